@@ -30,12 +30,13 @@ class World(object):
                  store="file", queue_type="classic", execution_ttl=86400, tz="UTC0", script=None,
                  functions=(), validate_asl=False, caps=(1000, 1000, 100), orphan_ms=600000,
                  max_steps=200000, trace=False, worker_hook=None, message_ttl=0, region="local",
-                 initial_store=None):
+                 initial_store=None, crash_prefetch=0.0):
         patches.install(REPO_PY)
         patches.gc_point()
         lat = LATENCY_PROFILES[latency] if isinstance(latency, str) else latency
         self.sim = sim = Sim(seed, policy=policy, latency=lat, max_steps=max_steps)
         sim.trace_on = trace
+        sim.crash_prefetch = crash_prefetch
         patches.per_run(sim, tz)
         sim.loop = SimLoop(sim)
         sim.disk = Disk()
